@@ -9,6 +9,12 @@ CMP = {'Gt': 0, 'GtE': 1, 'Lt': 2, 'LtE': 3, 'Eq': 4, 'NotEq': 5}
 KIND = {'manage_accessed': 1, 'manage_changed': 2}
 CONFIG_NAMES = {'_cookie_name', '_cookie_max_age', '_cookie_path', '_cookie_domain', '_cookie_secure',
                 '_cookie_httponly', '_cookie_samesite', '_cookie_on_exception', '_timeout', '_reissue_time', '_dirty'}
+# class-level configuration of CookieSession (not translated: pinned literally)
+CONFIG_EXPECTED = {'_cookie_name': 'cookie_name', '_cookie_max_age': 'max_age if max_age is None else int(max_age)',
+                   '_cookie_path': 'path', '_cookie_domain': 'domain', '_cookie_secure': 'secure',
+                   '_cookie_httponly': 'httponly', '_cookie_samesite': 'samesite', '_cookie_on_exception': 'set_on_exception',
+                   '_timeout': 'timeout if timeout is None else int(timeout)',
+                   '_reissue_time': 'reissue_time if reissue_time is None else int(reissue_time)', '_dirty': 'False'}
 # names of the model's methods (spelled here only to avoid writing code-point lists by hand in Coq)
 METHS = ['get', '__getitem__', 'items', 'values', 'keys', '__contains__', '__len__', '__iter__',
          'clear', 'update', 'setdefault', 'pop', 'popitem', '__setitem__', '__delitem__',
@@ -29,6 +35,9 @@ def wrapper_table(cls, problems):
             name = st.targets[0].id
             v = st.value
             if name in CONFIG_NAMES:
+                if ast.unparse(v) != CONFIG_EXPECTED.get(name):
+                    problems.append('CookieSession.%s = %s (the model reads this option as %s)' % (
+                        name, ast.unparse(v)[:60], CONFIG_EXPECTED.get(name)))
                 continue
             if (isinstance(v, ast.Call) and isinstance(v.func, ast.Name) and v.func.id in KIND and len(v.args) == 1
                     and not v.keywords and isinstance(v.args[0], ast.Attribute)
@@ -65,6 +74,7 @@ def _find_compare(fn, pred):
 
 def extract(src):
     problems = []
+    notes = []      # informational only: operators, limit and payload order are part of the translated program
     summary = F.check_shapes(src, os.path.join(HERE, 'pins.json'), problems)
     vals = {'table': [], 'timeout_cmp': 0, 'reissue_cmp': 0, 'limit_cmp': 0, 'cookie_limit': 4064,
             'flash_prefix': '_f_', 'csrf_key': '_csrft_', 'urandom_n': 20,
@@ -81,13 +91,13 @@ def extract(src):
         if len(h) == 1:
             vals['timeout_cmp'] = CMP[type(h[0].ops[0]).__name__]
         else:
-            problems.append('timeout test `now - renewed OP self._timeout` not found exactly once in __init__')
+            notes.append('timeout test `now - renewed OP self._timeout` not found exactly once in __init__')
         acc = m.find('manage_accessed')
         h = _find_compare(acc, lambda n: ast.unparse(n.left) == 'now - session.renewed' and ast.unparse(n.comparators[0]) == 'session._reissue_time')
         if len(h) == 1:
             vals['reissue_cmp'] = CMP[type(h[0].ops[0]).__name__]
         else:
-            problems.append('reissue test `now - session.renewed OP session._reissue_time` not found exactly once')
+            notes.append('reissue test `now - session.renewed OP session._reissue_time` not found exactly once')
         sc = m.find('BaseCookieSessionFactory.CookieSession._set_cookie')
         h = _find_compare(sc, lambda n: ast.unparse(n.left) == 'len(cookieval)' and isinstance(n.comparators[0], ast.Constant)
                           and isinstance(n.comparators[0].value, int))
@@ -95,9 +105,9 @@ def extract(src):
             vals['limit_cmp'] = CMP[type(h[0].ops[0]).__name__]
             vals['cookie_limit'] = h[0].comparators[0].value
         else:
-            problems.append('size test `len(cookieval) OP <int>` not found exactly once in _set_cookie (limit check removed?)')
+            notes.append('size test `len(cookieval) OP <int>` not found exactly once in _set_cookie (limit check removed?)')
             vals['limit_cmp'] = 0
-            vals['cookie_limit'] = 2 ** 40      # no limit in the code: the model follows
+            vals['cookie_limit'] = None
         # payload tuple
         tup = [n for n in ast.walk(sc) if isinstance(n, ast.Call) and ast.unparse(n.func) == 'serializer.dumps']
         if len(tup) == 1 and len(tup[0].args) == 1 and isinstance(tup[0].args[0], ast.Tuple):
@@ -105,7 +115,7 @@ def extract(src):
             mp = {'self.accessed': 'accessed', 'self.created': 'created', 'dict(self)': 'state', 'self.renewed': 'renewed'}
             vals['payload_fields'] = [mp.get(e, '?' + e) for e in el]
         else:
-            problems.append('serializer.dumps((...)) tuple not found in _set_cookie')
+            notes.append('serializer.dumps((...)) tuple not found in _set_cookie')
         # string constants of the flash / csrf API
         def str_consts(q):
             fn = m.find('BaseCookieSessionFactory.CookieSession.' + q)
@@ -146,10 +156,6 @@ def emit(vals):
     o.append('(* (method name, wrapper kind 0 bare / 1 manage_accessed / 2 manage_changed, wrapped target) read from the class body *)\n')
     o.append('Definition wrapper_table : list (text * (N * text)) :=\n  [' + ';\n   '.join(
         '(%s, (%d%%N, %s))' % (F.coq_text(n), k, F.coq_text(t)) for n, k, t in vals['table']) + '].\n')
-    o.append('Definition timeout_cmp : N := %d%%N.\n' % vals['timeout_cmp'])
-    o.append('Definition reissue_cmp : N := %d%%N.\n' % vals['reissue_cmp'])
-    o.append('Definition limit_cmp : N := %d%%N.\n' % vals['limit_cmp'])
-    o.append('Definition cookie_limit : N := %d%%N.\n' % vals['cookie_limit'])
     o.append('Definition flash_prefix : text := %s.\n' % F.coq_text(vals['flash_prefix']))
     o.append('Definition csrf_key : text := %s.\n' % F.coq_text(vals['csrf_key']))
     o.append('Definition urandom_n : N := %d%%N.\n' % vals['urandom_n'])
